@@ -178,6 +178,11 @@ def _run_async(history, early=None):
             rig.loop.run_for(12.0, rt.done)
             rig.loop.run_for(1.0)
             rig.peer.drop_request = None
+        elif kind == "QUIET":
+            # nothing changes on the spa for a long time (no partial update for `arg` seconds; pings / refreshes go on);
+            # whatever the periodic refreshes installed meanwhile is the new baseline
+            rig.loop.run_for(arg)
+            ref = rig.spa.struct.status_block
         elif kind == "RECONNECT":
             # the SAME GeckoAsyncSpa object is disconnected and connected again (what a client that manages the spa
             # object itself does); the spa serves its current block in the new handshake
@@ -304,6 +309,9 @@ def _run_threaded(history, early=None):
                 ref = apply_ref(ref, recs)
             n_statp = len(arg)
             rig.run_for(len(arg) * 0.25 + 3.0)
+        elif kind == "QUIET":
+            rig.run_for(arg)
+            ref = rig.spa.struct.status_block
         elif kind in ("SPA+REFRESH", "REFRESH", "P-MID-REFRESH"):
             if kind != "P-MID-REFRESH":
                 spa_blk = apply_ref(spa_blk, arg)
@@ -466,6 +474,22 @@ def _reconnect_job(idxs):
     return None, end
 
 
+def _quiet_job(job):
+    """A spa on which nothing changes for 5 / 11 / 35 minutes, then every kind of partial update: they are applied and
+    acknowledged like the first one after the connection."""
+    kind, quiet, idxs = job
+    _init_alpha()
+    lib.reset_library()
+    alpha = _ALPHA[kind]
+    hist = [alpha[1], ("QUIET", quiet)] + [alpha[i] for i in idxs]
+    why, step, end = (_run_async if kind == "async" else _run_threaded)(hist)
+    if why:
+        return (f"C05|{kind}|{why[0]}|after-quiet", f"{kind} client, [P, {quiet:.0f} s without a partial update] then "
+                                                    f"{[alpha[i][0] for i in idxs]}: at step {step}: {why[1]}",
+                {"kind": kind, "quiet": quiet, "idxs": list(idxs)}), end
+    return None, end
+
+
 def _init_alpha():
     if _ALPHA:
         return
@@ -581,6 +605,20 @@ def run(ctx):
         if res:
             ctx.violation(*res)
     ctx.set("reconnect_histories", len(rjobs))
+    # long quiet periods, then every event
+    qjobs = []
+    for kind in ("async", "threaded"):
+        na = len(_ALPHA[kind])
+        for quiet in ((660.0,) if ctx.quick else (300.0, 660.0, 2100.0)):
+            qjobs += [(kind, quiet, (i,)) for i in range(na)]
+            qjobs += [(kind, quiet, (1, 1)), (kind, quiet, (2, 1))]
+    for res, end in core.pmap(ctx, _quiet_job, qjobs, chunksize=1):
+        traces += 1
+        transitions += 1
+        states.add(("quiet", end))
+        if res:
+            ctx.violation(*res)
+    ctx.set("quiet_period_histories", len(qjobs))
     ctx.set("states", len(states))
     ctx.set("transitions", transitions)
     ctx.set("traces_validated_against_impl", traces)
@@ -602,6 +640,10 @@ def replay(ctx, data):
             ctx.violation(*res)
     elif "burst" in data:
         res, _ = _burst_job((data["kind"], data["burst"], data.get("pre")))
+        if res:
+            ctx.violation(*res)
+    elif "quiet" in data:
+        res, _ = _quiet_job((data["kind"], data["quiet"], tuple(data["idxs"])))
         if res:
             ctx.violation(*res)
     elif "reconnect" in data:
